@@ -421,6 +421,6 @@ func init() {
 		Levels:      c09Levels,
 		Run:         c09Run,
 		NoDedup:     true,
-		Budget:      budget(4*time.Minute, 20*time.Minute),
+		Budget:      budget(5*time.Minute, 45*time.Minute),
 	})
 }
